@@ -1,18 +1,118 @@
-//! C01-a: varint / zigzag kernels of core/src/buf_ext.rs, full width.
-use crate::buf_ext::{BufMutExt, ValueBufExt};
+//! C01-a / C07: varint and zigzag kernels of core/src/buf_ext.rs, full width.
+use crate::buf_ext::{BufMutExt, MessageBufExt, ValueBufExt};
+use crate::DeserializeError;
 
-#[kani::proof]
-#[kani::unwind(6)]
-fn c01a_varint_u32_roundtrip() {
-    let v: u32 = kani::any();
-    let mut out: Vec<u8> = Vec::new();
-    out.put_varint_u32_le(v);
-    let n = out.len();
-    assert!(n >= 1 && n <= 5);
-    let mut rd: &[u8] = &out[..];
-    let back = rd.try_get_varint_u32_le();
-    assert!(back == Ok(v));
-    assert!(rd.is_empty());
-    kani::cover!(n == 1);
-    kani::cover!(n == 5);
+/// put_varint then try_get_varint returns the value, consumes exactly what was written, and the
+/// encoded length is `1` iff `v <= 255 - N`, else `1 + number of significant bytes`.
+macro_rules! varint_rt {
+    ($name:ident, $unwind:expr, $ty:ty, $uty:ty, $n:expr, $put:ident, $get:ident, |$v:ident| $unsigned:expr) => {
+        #[kani::proof]
+        #[kani::unwind($unwind)]
+        fn $name() {
+            let $v: $ty = kani::any();
+            let mut out: Vec<u8> = Vec::with_capacity(16);
+            out.$put($v);
+            let n = out.len();
+            let u: $uty = $unsigned;
+            let mut sig = 1usize;
+            let mut x = u >> 8;
+            while x != 0 {
+                sig += 1;
+                x >>= 8;
+            }
+            let expect = if (u as u64) <= 255 - $n { 1 } else { 1 + sig };
+            assert!(n == expect, "encoded length");
+            if expect > 1 {
+                assert!(out[0] as usize == 255 - $n + sig, "length marker");
+            }
+            let mut rd: &[u8] = &out[..];
+            let back = ValueBufExt::$get(&mut rd);
+            assert!(back == Ok($v), "varint round trip");
+            assert!(rd.is_empty(), "decoder consumed exactly the encoding");
+            // skipping consumes the same
+            let mut rd2: &[u8] = &out[..];
+            assert!(rd2.try_skip_varint_le::<$n>().is_ok() && rd2.is_empty());
+            kani::cover!(n == 1);
+            kani::cover!(n == $n + 1);
+        }
+    };
 }
+
+varint_rt!(q_c01_varint_u16, 6, u16, u16, 2, put_varint_u16_le, try_get_varint_u16_le, |v| v);
+varint_rt!(q_c01_varint_i16, 6, i16, u16, 2, put_varint_i16_le, try_get_varint_i16_le, |v| ((v << 1) ^ (v >> 15)) as u16);
+varint_rt!(q_c01_varint_u32, 8, u32, u32, 4, put_varint_u32_le, try_get_varint_u32_le, |v| v);
+varint_rt!(q_c01_varint_i32, 8, i32, u32, 4, put_varint_i32_le, try_get_varint_i32_le, |v| ((v << 1) ^ (v >> 31)) as u32);
+varint_rt!(q_c01_varint_u64, 12, u64, u64, 8, put_varint_u64_le, try_get_varint_u64_le, |v| v);
+varint_rt!(q_c01_varint_i64, 12, i64, u64, 8, put_varint_i64_le, try_get_varint_i64_le, |v| ((v << 1) ^ (v >> 63)) as u64);
+
+/// Zigzag is a bijection and maps small magnitudes to small codes (checked through the
+/// signed/unsigned varint entry points, the zigzag functions themselves are private).
+macro_rules! zigzag_laws {
+    ($name:ident, $unwind:expr, $ity:ty, $uty:ty, $puti:ident, $putu:ident, $geti:ident) => {
+        #[kani::proof]
+        #[kani::unwind($unwind)]
+        fn $name() {
+            let c: $ity = kani::any();
+            let spec: $uty = if c >= 0 { (c as $uty) * 2 } else { ((-(c + 1)) as $uty) * 2 + 1 };
+            let mut o1: Vec<u8> = Vec::with_capacity(16);
+            let mut o2: Vec<u8> = Vec::with_capacity(16);
+            o1.$puti(c);
+            o2.$putu(spec);
+            assert!(o1.len() == o2.len());
+            let mut i = 0;
+            while i < o1.len() {
+                assert!(o1[i] == o2[i], "signed varint = unsigned varint of the zigzag code");
+                i += 1;
+            }
+            // every unsigned code decodes to the signed value whose code it is (surjective)
+            let u: $uty = kani::any();
+            let mut o3: Vec<u8> = Vec::with_capacity(16);
+            o3.$putu(u);
+            let mut rd: &[u8] = &o3[..];
+            let x = ValueBufExt::$geti(&mut rd).unwrap();
+            let back: $uty = if x >= 0 { (x as $uty) * 2 } else { ((-(x + 1)) as $uty) * 2 + 1 };
+            assert!(back == u);
+        }
+    };
+}
+
+zigzag_laws!(q_c01_zigzag_i16, 6, i16, u16, put_varint_i16_le, put_varint_u16_le, try_get_varint_i16_le);
+zigzag_laws!(q_c01_zigzag_i32, 8, i32, u32, put_varint_i32_le, put_varint_u32_le, try_get_varint_i32_le);
+zigzag_laws!(q_c01_zigzag_i64, 12, i64, u64, put_varint_i64_le, put_varint_u64_le, try_get_varint_i64_le);
+
+/// Arbitrary bytes: try_get_varint and try_skip_varint never panic, consume the same number of
+/// bytes, fail exactly on truncation, and accept non-canonical encodings without over-reading.
+macro_rules! varint_total {
+    ($name:ident, $unwind:expr, $n:expr, $get:ident, [$($l:expr),*]) => {
+        #[kani::proof]
+        #[kani::unwind($unwind)]
+        fn $name() {
+            let arr: [u8; $n + 2] = kani::any();
+            $(
+                {
+                    let b: &[u8] = &arr[..$l];
+                    let mut r1 = b;
+                    let g = ValueBufExt::$get(&mut r1);
+                    let mut r2 = b;
+                    let s = r2.try_skip_varint_le::<$n>();
+                    let need = if b.is_empty() { None } else {
+                        let f = b[0] as usize;
+                        Some(if f > 255 - $n { 1 + (f + $n - 255) } else { 1 })
+                    };
+                    let ok = need.map(|n| b.len() >= n).unwrap_or(false);
+                    assert!(g.is_ok() == ok && s.is_ok() == ok);
+                    if ok {
+                        assert!(b.len() - r1.len() == need.unwrap());
+                        assert!(b.len() - r2.len() == need.unwrap());
+                    } else {
+                        assert!(g == Err(DeserializeError::UnexpectedEoi));
+                    }
+                }
+            )*
+        }
+    };
+}
+
+varint_total!(q_c07_varint_total_u16, 6, 2, try_get_varint_u16_le, [0, 1, 2, 3, 4]);
+varint_total!(q_c07_varint_total_u32, 8, 4, try_get_varint_u32_le, [0, 1, 2, 3, 4, 5, 6]);
+varint_total!(q_c07_varint_total_u64, 12, 8, try_get_varint_u64_le, [0, 1, 2, 5, 8, 9, 10]);
